@@ -42,7 +42,8 @@ def batch_oracle(ctx, lines, impl):
         if r_inl[0] == "syntax" or r_par[0] == "syntax":
             msg = r_inl[1] if r_inl[0] == "syntax" else r_par[1]
             tag = "WINDOW " if (" WINDOW " in inline and 'near "WINDOW"' in msg) else ""
-            if inline.startswith(("INSERT", "REPLACE")) and " SELECT " in inline and " ON CONFLICT " in inline and 'near "DO"' in msg:
+            is_insert = inline.startswith(("INSERT", "REPLACE")) or (inline.startswith("WITH ") and (") INSERT INTO " in inline or ") REPLACE INTO " in inline))
+            if is_insert and " SELECT " in inline and " ON CONFLICT " in inline and 'near "DO"' in msg:
                 tag = "UPSERTSELECT "
             verdicts[i] = tag + "sqlite3 rejects the rendering: %s" % (r_inl[1] if r_inl[0] == "syntax" else r_par[1])
             continue
